@@ -1,7 +1,185 @@
-(* C04 — external products, CMux, GGSW expansion.  Pinned statements only. *)
+(* C04 — external products, CMux.  Pinned statements only (proofs: Proofs/GadgetPhase.v, C04Phase.v; notions: Model/GadgetSpec.v;
+   reading guide in Props/C03.v).  C04_ggsw_cells (Proofs/C04Phase.v) = key_rows_ok with src_ci = m2 (x) Sk ci: cell (row, ci) of the GGSW
+   encrypts m2 2^(-(row+1) dsize b) for ci = 0 and s_{ci-1} m2 2^(..) for ci >= 1 (HYPOTHESIS of the phase theorems). *)
 From PV Require Import Base.MachineInt Model.Znx Model.Limbs Model.Flat Model.Ring Model.Poly Model.DftAbs Model.Gadget Model.GadgetOracle Model.C04Run.
+From PV Require Import Model.GadgetSpec Proofs.C07Dft Proofs.C07Ring Proofs.GadgetDecomp Proofs.GadgetPhase Proofs.GadgetBound Proofs.C03Phase Proofs.C04Phase.
 Open Scope Z_scope.
 
-Theorem C04_placeholder : digit_bound 3 2 = 36.
-Proof. reflexivity. Qed.
-Print Assumptions C04_placeholder.
+(* (3c) phase(res) = m2 (x) phase(limbs l < min(a_size, dnum*dsize) of ct) + E + 2^P Iq, on the model, all shapes, both clamp modes *)
+Theorem C04_external_product_phase :
+  forall (P b : Z) (n rank msize a_size dsize dnum : nat) (clamp : bool) (a : cols_t) (K : pmat) (Sk : nat -> list Z)
+      (m2 : list Z) (e I : nat -> nat -> list Z),
+    wf_cols n (S rank) a_size a ->
+    wf_pmat_in n (dnum * S rank) (msize * S rank) K ->
+    (1 <= dsize)%nat ->
+    (dsize - 2 <= msize)%nat ->
+    (forall co : nat, length (Sk co) = n) ->
+    length m2 = n ->
+    (forall row ci : nat, length (e row ci) = n) ->
+    (forall row ci : nat, length (I row ci) = n) ->
+    0 <= b ->
+    Z.of_nat msize * b <= P ->
+    Z.of_nat dnum * Z.of_nat dsize * b <= P ->
+    key_rows_ok P b n (S rank) (S rank) msize dsize dnum K Sk (fun ci : nat => pmul m2 (Sk ci)) e I ->
+    exists res : cols_t,
+      gadget_product n (S rank) msize (zcols n (S rank) msize) a a_size dsize dnum msize clamp K = Some res /\
+      wf_cols n (S rank) msize res /\
+      phase_f P b n (S rank) msize (limbs_of res) Sk =
+      padd
+        (padd (pmul m2 (phase_f P b n (S rank) (Nat.min a_size (dnum * dsize)) (acol n a) Sk))
+           (gadget_err P b n (S rank) (S rank) msize dsize dnum (acol n a) K Sk e))
+        (pscale (2 ^ P) (gadget_int b n (S rank) (S rank) msize dsize dnum (acol n a) K Sk I)).
+Proof. exact C04_external_product_phase_lemma. Qed.
+Print Assumptions C04_external_product_phase.
+
+(* the product started from an un-zeroed accumulator (cmux): functional form when the limbs j >= sz_r(0) of res0 are zero *)
+Theorem C04_gadget_product_spec_clean :
+  forall (n cin cols_out msize a_size dsize dnum : nat) (clamp : bool) (a : cols_t) (m : pmat) (res0 : cols_t),
+    wf_cols n cin a_size a ->
+    (1 <= dsize)%nat ->
+    (dsize - 2 <= msize)%nat ->
+    wf_cols n cols_out msize res0 ->
+    res0_clean n cols_out msize dsize res0 ->
+    exists res : cols_t,
+      gadget_product n cols_out msize res0 a a_size dsize dnum msize clamp m = Some res /\
+      wf_cols n cols_out msize res /\
+      (forall co j : nat,
+       (co < cols_out)%nat -> (j < msize)%nat -> lim (col res co) j = gp_spec n cin cols_out msize a_size dsize dnum clamp (acol n a) m co j).
+Proof. exact gadget_product_spec_clean. Qed.
+Print Assumptions C04_gadget_product_spec_clean.
+
+(* cmux before its final normalisation: bit (phase(t) - phase(f)) + phase(f) + E + 2^P Iq *)
+Theorem C04_cmux_phase :
+  forall (be P b : Z) (n rank res_size t_size f_size dsize dnum msize : nat) (res0 t f : cols_t) (K : pmat) (Sk : nat -> list Z)
+      (bit : Z) (e I : nat -> nat -> list Z),
+    (1 <= n)%nat ->
+    wf_cols n (S rank) t_size t ->
+    wf_cols n (S rank) f_size f ->
+    wf_cols n (S rank) msize res0 ->
+    res0_clean n (S rank) msize dsize res0 ->
+    wf_pmat_in n (dnum * S rank) (msize * S rank) K ->
+    (1 <= dsize)%nat ->
+    (dsize - 2 <= msize)%nat ->
+    (forall co : nat, length (Sk co) = n) ->
+    (forall row ci : nat, length (e row ci) = n) ->
+    (forall row ci : nat, length (I row ci) = n) ->
+    0 <= b ->
+    Z.of_nat msize * b <= P ->
+    Z.of_nat dnum * Z.of_nat dsize * b <= P ->
+    key_rows_ok P b n (S rank) (S rank) msize dsize dnum K Sk (fun ci : nat => pmul (pscale bit (pone n)) (Sk ci)) e I ->
+    exists big : cols_t,
+      gadget_product n (S rank) msize res0 (map2 (col_sub n res_size) t f) res_size dsize dnum msize false K = Some big /\
+      cmux be n b rank res_size t_size f_size dsize dnum msize res0 t f K =
+      sequence (map (big_normalize (wbig be) n b b res_size) (map2 add_small big f)) /\
+      wf_cols n (S rank) msize (map2 add_small big f) /\
+      phase_f P b n (S rank) msize (limbs_of (map2 add_small big f)) Sk =
+      padd
+        (padd
+           (padd
+              (pscale bit
+                 (psub (phase_f P b n (S rank) (Nat.min res_size (dnum * dsize)) (acol n t) Sk)
+                    (phase_f P b n (S rank) (Nat.min res_size (dnum * dsize)) (acol n f) Sk)))
+              (phase_f P b n (S rank) (Nat.min msize f_size) (acol n f) Sk))
+           (gadget_err P b n (S rank) (S rank) msize dsize dnum (acol n (map2 (col_sub n res_size) t f)) K Sk e))
+        (pscale (2 ^ P) (gadget_int b n (S rank) (S rank) msize dsize dnum (acol n (map2 (col_sub n res_size) t f)) K Sk I)).
+Proof. exact C04_cmux_phase_lemma. Qed.
+Print Assumptions C04_cmux_phase.
+
+(* bit = 0 selects f, bit = 1 selects t *)
+Theorem C04_cmux_selects :
+  forall (be P b : Z) (n rank res_size t_size f_size dsize dnum msize : nat) (res0 t f : cols_t) (K : pmat) (Sk : nat -> list Z)
+      (bit : Z) (e I : nat -> nat -> list Z),
+    (1 <= n)%nat ->
+    wf_cols n (S rank) t_size t ->
+    wf_cols n (S rank) f_size f ->
+    wf_cols n (S rank) msize res0 ->
+    res0_clean n (S rank) msize dsize res0 ->
+    wf_pmat_in n (dnum * S rank) (msize * S rank) K ->
+    (1 <= dsize)%nat ->
+    (dsize - 2 <= msize)%nat ->
+    (forall co : nat, length (Sk co) = n) ->
+    (forall row ci : nat, length (e row ci) = n) ->
+    (forall row ci : nat, length (I row ci) = n) ->
+    0 <= b ->
+    Z.of_nat msize * b <= P ->
+    Z.of_nat dnum * Z.of_nat dsize * b <= P ->
+    key_rows_ok P b n (S rank) (S rank) msize dsize dnum K Sk (fun ci : nat => pmul (pscale bit (pone n)) (Sk ci)) e I ->
+    bit = 0 \/ bit = 1 ->
+    (bit = 1 -> (f_size <= Nat.min res_size (dnum * dsize))%nat /\ (f_size <= msize)%nat) ->
+    exists big : cols_t,
+      gadget_product n (S rank) msize res0 (map2 (col_sub n res_size) t f) res_size dsize dnum msize false K = Some big /\
+      cmux be n b rank res_size t_size f_size dsize dnum msize res0 t f K =
+      sequence (map (big_normalize (wbig be) n b b res_size) (map2 add_small big f)) /\
+      phase_f P b n (S rank) msize (limbs_of (map2 add_small big f)) Sk =
+      padd
+        (padd
+           (if bit =? 1
+            then phase_f P b n (S rank) (Nat.min res_size (dnum * dsize)) (acol n t) Sk
+            else phase_f P b n (S rank) (Nat.min msize f_size) (acol n f) Sk)
+           (gadget_err P b n (S rank) (S rank) msize dsize dnum (acol n (map2 (col_sub n res_size) t f)) K Sk e))
+        (pscale (2 ^ P) (gadget_int b n (S rank) (S rank) msize dsize dnum (acol n (map2 (col_sub n res_size) t f)) K Sk I)).
+Proof. exact C04_cmux_selects_lemma. Qed.
+Print Assumptions C04_cmux_selects.
+
+(* (3c) with Gadget.phase_val when no input limb is lost (a_size <= dnum*dsize): phase(res) = m2 (x) phase(ct) + E + 2^P Iq *)
+Theorem C04_external_product_phase_val :
+  forall (P b : Z) (n msize a_size dsize dnum : nat) (clamp : bool) (a : cols_t) (K : pmat) (sk : list (list Z)) (m2 : list Z)
+      (e I : nat -> nat -> list Z),
+    wf_cols n (S (length sk)) a_size a ->
+    wf_pmat_in n (dnum * S (length sk)) (msize * S (length sk)) K ->
+    (1 <= n)%nat ->
+    (1 <= dsize)%nat ->
+    (dsize - 2 <= msize)%nat ->
+    (a_size <= dnum * dsize)%nat ->
+    (forall s : list Z, In s sk -> length s = n) ->
+    length m2 = n ->
+    (forall row ci : nat, length (e row ci) = n) ->
+    (forall row ci : nat, length (I row ci) = n) ->
+    0 <= b ->
+    Z.of_nat msize * b <= P ->
+    Z.of_nat dnum * Z.of_nat dsize * b <= P ->
+    C04_ggsw_cells P b n (length sk) msize dsize dnum K sk m2 e I ->
+    exists res : cols_t,
+      gadget_product n (S (length sk)) msize (zcols n (S (length sk)) msize) a a_size dsize dnum msize clamp K = Some res /\
+      phase_val P b n sk res =
+      padd
+        (padd (pmul m2 (phase_val P b n sk a)) (gadget_err P b n (S (length sk)) (S (length sk)) msize dsize dnum (acol n a) K (sk_ext n sk) e))
+        (pscale (2 ^ P) (gadget_int b n (S (length sk)) (S (length sk)) msize dsize dnum (acol n a) K (sk_ext n sk) I)).
+Proof. exact C04_external_product_phase_val_lemma. Qed.
+Print Assumptions C04_external_product_phase_val.
+
+(* C04_ggsw_cells: cell (row, col) of a GGSW of m2 under sk decrypts to m2 2^(P-(row+1) dsize b) (col = 0) resp.
+   s_{col-1} (x) m2 2^(..) (col >= 1) plus its error e_{row,col} (phase convention ct[0] + sum ct[i+1] (x) s_i: the sign is +).
+   It is the HYPOTHESIS of the phase theorems; the oracle (codes 4020 / 4021..4033) checks it on every GGSW the library produces. *)
+Theorem C04_ggsw_cells :
+  forall (P b : Z) (n rank msize dsize dnum : nat) (K : pmat) (sk : list (list Z)) (m2 : list Z) (e I : nat -> nat -> list Z),
+    C04Phase.C04_ggsw_cells P b n rank msize dsize dnum K sk m2 e I <->
+    (forall row ci, (row < dnum)%nat -> (ci < S rank)%nat ->
+       kphase P b n (S rank) msize K (sk_ext n sk) (row * S rank + ci)%nat
+       = padd (padd (pscale (2 ^ (P - (Z.of_nat row + 1) * Z.of_nat dsize * b)) (pmul m2 (sk_ext n sk ci))) (e row ci))
+              (pscale (2 ^ P) (I row ci))).
+Proof. exact C04_ggsw_cells_meaning_lemma. Qed.
+Print Assumptions C04_ggsw_cells.
+
+(* ---- the hypotheses are satisfiable: a concrete small instance (definitions ex*_ in the Proofs file), and the model run on it ---- *)
+Example C04_hypotheses_satisfiable :
+  wf_cols 2 2 2 ex4_ct /\ wf_pmat_in 2 (2 * 2) (2 * 2) (ex4_K ex4_m2) /\ (1 <= 1)%nat /\ (1 - 2 <= 2)%nat /\
+  (forall co, length (sk_ext 2 ex4_sk co) = 2%nat) /\ length ex4_m2 = 2%nat /\
+  (forall row ci, length (ex4_zero row ci) = 2%nat) /\ 0 <= 4 /\ Z.of_nat 2 * 4 <= 8 /\ Z.of_nat 2 * Z.of_nat 1 * 4 <= 8 /\
+  C04Phase.C04_ggsw_cells 8 4 2 1 2 1 2 (ex4_K ex4_m2) ex4_sk ex4_m2 ex4_zero ex4_zero.
+Proof. exact C04_hypotheses_satisfiable_lemma. Qed.
+
+Example C04_instance_runs :
+  exists res, gadget_product 2 2 2 (zcols 2 2 2) ex4_ct 2 1 2 2 false (ex4_K ex4_m2) = Some res /\
+    phase_f 8 4 2 2 2 (limbs_of res) (sk_ext 2 ex4_sk)
+    = padd (padd (pmul ex4_m2 (phase_f 8 4 2 2 (Nat.min 2 (2 * 1)) (acol 2 ex4_ct) (sk_ext 2 ex4_sk)))
+                 (gadget_err 8 4 2 2 2 2 1 2 (acol 2 ex4_ct) (ex4_K ex4_m2) (sk_ext 2 ex4_sk) ex4_zero))
+           (pscale (2 ^ 8) (gadget_int 4 2 2 2 2 1 2 (acol 2 ex4_ct) (ex4_K ex4_m2) (sk_ext 2 ex4_sk) ex4_zero)).
+Proof. exact C04_instance_runs_lemma. Qed.
+
+Example C04_cmux_hypotheses_satisfiable :
+  (1 <= 2)%nat /\ wf_cols 2 2 2 ex4_ct /\ wf_cols 2 2 2 ex4_f /\ wf_cols 2 2 2 (zcols 2 2 2) /\ res0_clean 2 2 2 1 (zcols 2 2 2) /\
+  wf_pmat_in 2 (2 * 2) (2 * 2) (ex4_K (pscale 1 (pone 2))) /\
+  key_rows_ok 8 4 2 2 2 2 1 2 (ex4_K (pscale 1 (pone 2))) (sk_ext 2 ex4_sk) (fun ci => pmul (pscale 1 (pone 2)) (sk_ext 2 ex4_sk ci)) ex4_zero ex4_zero /\
+  (1 = 0 \/ 1 = 1) /\ (1 = 1 -> (2 <= Nat.min 2 (2 * 1))%nat /\ (2 <= 2)%nat).
+Proof. exact C04_cmux_hypotheses_satisfiable_lemma. Qed.
